@@ -31,5 +31,13 @@ def scenario(rng, i):
 RULE = ("random trees x format sets (1, 2, 3 or all 6 formats) x ignore patterns; create, verify -dh -co, then in-place renames / content edits / additions / "
         "removals and again; oracle: every recorded <directoryhash>/<roothash> and every hash printed by -co equals an independent evaluation of the definition "
         "(sorted digest texts, decoded, concatenated; structure = name bytes + digest) over the non-ignored entries. Non-trivial: the tree has a sub-directory.")
-check, replay = make("C07", oracles.oracle_c07, scenario, 60, 1500, RULE,
+# recorded inputs that run first on every run: children with EQUAL digests (copies of a file, several empty files, an empty
+# file beside an empty folder) -- each child counts, however many of them hash alike
+CORPUS = [{"tree": {"a.bin": {"f": "0102"}, "b.bin": {"f": "0102"}, "e1": {"f": ""}, "e2": {"f": ""},
+                    "D": {"d": {"c1.bin": {"f": "0102"}, "c2.bin": {"f": "0102"}, "E": {"d": {}}, "F": {"f": ""}, "z": {"f": ""}}},
+                    "D2": {"d": {"c1.bin": {"f": "0102"}, "c2.bin": {"f": "0102"}, "E": {"d": {}}, "F": {"f": ""}, "z": {"f": ""}}}},
+           "steps": [{"op": "create", "fmts": ["md5", "c4"]}, {"op": "verifydh", "co": True},
+                     {"op": "rename", "path": "D/c2.bin", "to": "D/c3.bin"}, {"op": "verifydh", "co": True},
+                     {"op": "create", "fmts": ["xxh64"]}, {"op": "verifydh"}]}]
+check, replay = make("C07", oracles.oracle_c07, scenario, 60, 1500, RULE, corpus=CORPUS,
                      nontrivial=lambda scn, obs: bool(gen.all_dirs(scn["tree"])))
